@@ -161,7 +161,6 @@ structure InvW (st : St) : Prop where
 structure InvR (st : St) : Prop extends InvW P st where
   goalTracked : ∀ (k : Str) (id : Nat) (i : Inst) (c : Int), (k, id) ∈ st.reg → st.insts[id]? = some i → i.kind.isThroughput = true →
     AList.get st.goalCfg k = some c → i.goal = newGoal c st.peerCount
-  peersSync : ∀ n, st.actual = some n → 0 < n → st.peerCount = n
 
 def SlotOK (st : St) (env : Str) (epoch : Nat) (s : Slot) : Prop :=
   P (s.pfx, s.d) ∧ (s.pfx = env ∨ s.pfx = rulesPrefix env) ∧ (s.id = none ↔ s.d.kind = Kind.determ) ∧
@@ -283,7 +282,7 @@ theorem updatePeers_R {st : St} (h : InvW P st) : InvR P (updatePeers st) := by
   have hact : (updatePeers st).actual = st.actual := rfl
   have hins : (updatePeers st).insts = applyGoals st.goalCfg (refreshCount st.actual st.peerCount) st.reg st.insts := rfl
   refine { regNodup := h.regNodup, idsNodup := h.idsNodup, regWF := ?_, instWF := ?_, goalUntracked := ?_,
-           goalProv := h.goalProv, pcPos := refreshCount_pos h.pcPos, goalTracked := ?_, peersSync := ?_ }
+           goalProv := h.goalProv, pcPos := refreshCount_pos h.pcPos, goalTracked := ?_ }
   · intro k id hm
     obtain ⟨i, hi, hk, hb, hp⟩ := h.regWF k id hm
     obtain ⟨i', hi', hg⟩ := (updatePeers_ext st).ghost id i hi
@@ -311,10 +310,6 @@ theorem updatePeers_R {st : St} (h : InvW P st) : InvR P (updatePeers st) := by
     rw [hins, this] at hi'
     cases hi'
     rfl
-  · intro n hn hpos
-    rw [hact] at hn
-    rw [hpc, hn]
-    simp [refreshCount, hpos]
 
 /-! ## `getSharedDynsamplerAndRecorder` -/
 
